@@ -244,6 +244,15 @@ theorem copy_like_source_unchanged (w : World) (t s : Nat) (w' : World) (hsc : S
     (hts : t ≠ s) (h : w.copyLike t s = .ok w') : w'.observe s = w.observe s :=
   copyLike_source w t s w' hsc ht hs hwt hws hap hts h
 
+/-- `copy_like` copies values; it never makes the target refer to an object of the source: afterwards every
+object of the target (indexer, phase container / array, rows, thermal condition, characterization factors) is
+one the target referred to before or a new one.  So whatever target and source share afterwards they shared
+before — for ANY two streams, linked or not (no `Apart` hypothesis). -/
+theorem copy_like_no_new_sharing (w : World) (t s : Nat) (w' : World) (hsc : Scoped w) (ht : t < w.nS)
+    (hs : s < w.nS) (h : w.copyLike t s = .ok w') :
+    ∀ x ∈ w'.fp t, x ∈ w.fp t ∨ w.next ≤ x :=
+  copyLike_target_fp w t s w' hsc ht hs h
+
 /-- The exact label is used whenever the target has it. -/
 theorem phase_lookup_exact (ps : List Ph) (p : Ph) (h : p ∈ ps) : phIdx ps p = ps.idxOf? p := by
   obtain ⟨i, hi⟩ := idxOf?_some_of_mem ps p h
@@ -398,53 +407,11 @@ theorem pickle_fresh_and_frame (w : World) (s : Nat) (hsc : Scoped w) :
   · intro j hj
     exact frame_of_writes hsc h1 j hj (fun h => h) (fun _ _ h => h)
 
-/-- Objects pickled slot by slot (`Thermo`, `Chemical`, reactions): every slot named in the recipe
-has the same value after the round trip, and no other slot is set.  (So the round trip preserves the
-observable state exactly when that state is a function of the listed slots — which the oracle checks
-on the real `Reaction`, `ParallelReaction`, `Chemical` and `Thermo` objects.) -/
-theorem slot_pickle_roundtrip {V : Type} (slots : List Nat) (obj : Nat → Option V) (k : Nat) :
-    (k ∈ slots → newFromState (getState slots obj) k = obj k) ∧
-    (k ∉ slots → newFromState (getState slots obj) k = none) := by
-  induction slots with
-  | nil => simp [newFromState, getState]
-  | cons x xs ih =>
-    by_cases hk : k = x
-    · subst hk; simp [newFromState, getState, List.lookup]
-    · have hne : (k == x) = false := by simp [hk]
-      simp only [newFromState, getState, List.map_cons, List.lookup, hne] at ih ⊢
-      simp [hk]
-      exact ih
-
-/-- `Chemical.__reduce__` = `unpickle_chemical(get_chemical_data(self))`: every slot reads the same through
-`getattr(chemical, slot, None)` after the round trip (user-set data, locked state, synonyms and aliases are slots). -/
-theorem chemical_pickle_roundtrip {V : Type} (slots : List Nat) (obj : Nat → Option (Option V)) (k : Nat)
-    (hk : k ∈ slots) : observeD (chemFromData (chemGetData slots obj)) k = observeD obj k := by
-  induction slots with
-  | nil => simp at hk
-  | cons x xs ih =>
-    by_cases hx : k = x
-    · subst hx; simp [observeD, chemFromData, chemGetData, List.lookup]
-    · have hne : (k == x) = false := by simp [hx]
-      have hk' : k ∈ xs := by simpa [hx] using hk
-      simp only [observeD, chemFromData, chemGetData, List.map_cons, List.lookup, hne] at ih ⊢
-      exact ih hk'
-
-/-- `CompiledChemicals` (hence `Thermo`, which holds one in a slot): chemicals, the names they answer to and the
-chemical groups are the same after the round trip, so every name — ID, synonym, alias, group — is looked up to
-the same position(s).  (The groups are part of the pickle only with fix C13-11.) -/
-theorem compiled_chemicals_pickle_roundtrip (x : CChems) :
-    CChems.rebuild x.pickleArgs = x ∧ ∀ name, (CChems.rebuild x.pickleArgs).index name = x.index name :=
-  ⟨rfl, fun _ => rfl⟩
-
-/-- Objects pickled through their slots by the default protocol or by `cucumber` (`Reaction`,
-`ParallelReaction`, `Thermo`): with the recipe = all slots, the rebuilt object has every slot as before, set
-or unset. -/
-theorem slotted_pickle_roundtrip {V : Type} (slots : List Nat) (obj : Nat → Option V)
-    (hall : ∀ k, k ∉ slots → obj k = none) : newFromState (getState slots obj) = obj := by
-  funext k
-  by_cases hk : k ∈ slots
-  · exact (slot_pickle_roundtrip slots obj k).1 hk
-  · rw [(slot_pickle_roundtrip slots obj k).2 hk, hall k hk]
+/-! Pickling of `Reaction`, `ParallelReaction`, `SeriesReaction`, `ReactionSystem`, `Chemical`, `Thermo` and
+`CompiledChemicals` is decided by the oracle on real round trips (observable state before / after, also across
+sessions with another default package), not by proof: the slot-wise facts about `getState` / `newFromState` /
+`chemGetData` / `CChems.rebuild` are bookkeeping lemmas in `Lemmas/Links.lean` (they say nothing about which
+slots the real `__reduce__` methods carry). -/
 
 /-! ## Frame and histories -/
 
